@@ -84,7 +84,12 @@ def par_job(job):
             return rc, ws.snapshot(w), se, evs
         finally:
             ws.rmws(w)
-    rc1, snap1, se1, _ = run(1)
+    rc1, snap1, se1, evs1 = run(1, env={})
+    comp = components(sc['series'])
+    scn_json = {'tree0': sc['tree0'], 'series': [{'fps': pt['fps'], 'rev': bool(pt.get('rev'))} for pt in sc['series']], 'cfg': cfg, 'failAt': 0, 'assign': comp}
+    if not ws.crashed(rc1):
+        # the sequential driver's trace must be a behaviour of the model too (scn.seq)
+        traces.append({'scn': dict(scn_json, seq=True), 'ev': normalise(evs1), 'script': ['sequential'], 'exit': rc1})
     for cat, msg in scen.compare(snap1, sc, out, cfg, rc1, se1):
         probs.append(('sequential-' + cat, 'the single-threaded run itself differs from the reference: ' + msg))
     for threads in (2, 3, 4, 8, 16):
@@ -94,7 +99,6 @@ def par_job(job):
         elif rc != rc1 or snap != snap1:
             probs.append(('parallel-differs', 'threads %d (free schedule): exit %d vs %d, differing paths %s' % (threads, rc, rc1, snap_cmp(snap, snap1))))
     # forced schedules
-    comp = components(sc['series'])
     keys_for = {}
     for n in (2, 3):
         rc, snap, se, evs = run(n, env={})
@@ -124,8 +128,7 @@ def par_job(job):
             elif rc != rc1 or snap != snap1:
                 probs.append(('parallel-differs', 'forced schedule %s...: exit %d vs %d, differing paths %s' % (','.join(script[:16]), rc, rc1, snap_cmp(snap, snap1))))
             # C07 at the level of the run: no file is handled by two workers (component -> one key per phase is implied by assign)
-            traces.append({'scn': {'tree0': sc['tree0'], 'series': [{'fps': pt['fps'], 'rev': bool(pt.get('rev'))} for pt in sc['series']], 'cfg': cfg, 'failAt': 0, 'assign': comp},
-                           'ev': normalise(evs), 'script': script[:24], 'exit': rc})
+            traces.append({'scn': dict(scn_json, seq=False), 'ev': normalise(evs), 'script': script[:24], 'exit': rc})
     return probs, traces
 
 
@@ -206,10 +209,10 @@ def check(prop, tier):
                         accepted.add(int(m.group(1)))
             for tr in all_traces:
                 if tr['id'] not in accepted:
-                    res.violation('trace-rejected', 'the hook trace of a forced-schedule run is not a behaviour of the driver model Push.tla (schedule %s...)' % ','.join(tr['script'][:12]),
+                    res.violation('trace-rejected', 'the hook trace of a %s run is not a behaviour of the driver model Push.tla (schedule %s...)' % ('sequential' if tr['scn']['seq'] else 'forced-schedule', ','.join(tr['script'][:12])),
                                   {'scenario': tr['scn'], 'events': tr['ev'], 'script': tr['script']})
         res.cov['parts']['par-scenarios'].update({'scenarios': len(jobs), 'free_runs': len(jobs) * 6, 'forced_runs': nforced, 'forced_skipped': nskip,
-                                                  'traces_accepted_by_model': len(accepted)})
+                                                  'traces_accepted_by_model': len(accepted), 'sequential_traces': sum(1 for tr in all_traces if tr['scn']['seq'])})
         res.cov['traces_validated_against_impl'] += nforced + len(jobs) * 6
         res.cov['evaluations'] += nforced + len(jobs) * 6
         res.cov['distinct_nontrivial'] += len(jobs)
